@@ -76,7 +76,15 @@ def ev(f, o, env, depth=0):
             return (v[1],)
         raise Unknown("downcast")
     if k == "binop":
-        return BIN[o[1]](ev(f, o[2], env, depth + 1), ev(f, o[3], env, depth + 1))
+        a, b = ev(f, o[2], env, depth + 1), ev(f, o[3], env, depth + 1)
+        if o[1] in ("AddWithOverflow", "SubWithOverflow", "MulWithOverflow"):
+            r = {"A": a + b, "S": a - b, "M": a * b}[o[1][0]]
+            return (r, not (0 <= r < (1 << 64)))      # (value, overflowed) as in MIR
+        if o[1] in ("Mul", "Div", "Rem", "Shl", "Shr"):
+            return {"Mul": operator.mul, "Div": operator.floordiv, "Rem": operator.mod, "Shl": operator.lshift, "Shr": operator.rshift}[o[1]](a, b)
+        if o[1] not in BIN:
+            raise Unknown("binop %s" % o[1])
+        return BIN[o[1]](a, b)
     if k == "unop" and o[1] == "Not":
         return not ev(f, o[2], env, depth + 1)
     if k == "cast":
